@@ -33,6 +33,14 @@ impl Acc {
    }
 }
 
+pub fn le_flag<F: FnOnce() -> usize>(f: F) -> u128 {
+   // len_estimate only steers join order: its value is not compared, only whether the call panics
+   match panic::catch_unwind(AssertUnwindSafe(f)) {
+      Ok(_) => 0,
+      Err(_) => 1,
+   }
+}
+
 fn main() {
    let suite = std::env::args().nth(1).expect("suite");
    panic::set_hook(Box::new(|_| {}));
